@@ -6,7 +6,7 @@ The obligation is that LocalLoader::get establishes it at the call site.
 Bounded (representatives): CBMC does not finish on symbolic suffixes (std::path component parsing; measured
 50 min for 3 symbolic bytes), so the obligation is checked for concrete IRIs covering each escape class:
 plain, leading '/', '..', inner '../..', './' and empty segments, fragment, IRI outside the namespace,
-percent-encoded dots and slashes.
+percent-encoded dots and slashes, the namespace itself.
 """
 import json
 from engine import core, overlay, native, kani_unit
@@ -20,11 +20,12 @@ REPS = [("c19_rep_plain", "x:/a/b"), ("c19_rep_leading_slash", "x://etc/p"), ("c
         ("c19_rep_inner_dotdot", "x:/a/../../p"), ("c19_rep_dot_and_empty", "x:/./a//b"), ("c19_rep_fragment", "x:/a#../../p"),
         ("c19_rep_outside_namespace", "y:/a"), ("c19_rep_curdir_then_parent", "x:/./../p"), ("c19_rep_curdir_empty_parent", "x:/.//../p"),
         ("c19_rep_balanced_then_parent", "x:/a/./../../p"),
+        ("c19_rep_namespace_itself", "x:/"), ("c19_rep_only_dot", "x:/./"), ("c19_rep_namespace_fragment", "x:/#f"),
         ("c19_rep_pct_dotdot", "x:/%2e%2e/p"), ("c19_rep_pct_mixed_dotdot", "x:/.%2E/p"), ("c19_rep_pct_slash", "x:/..%2fp")]
 # IRIs that must still be SERVED (std::fs::read reached, cover required) vs IRIs that may be refused before any read
 MUST_REACH = {"c19_rep_plain", "c19_rep_dot_and_empty", "c19_rep_fragment"}
 HARNESSES = [H(n, "LocalLoader::get(%s) with namespace x:/ -> /r: every path handed to std::fs::read satisfies confined(path, /r)%s" % (iri, " and the read IS attempted" if n in MUST_REACH else ""),
-               bound="concrete IRI %s" % iri, timeout=1500, covers_optional=(n not in MUST_REACH)) for n, iri in REPS]
+               bound="concrete IRI %s" % iri, timeout=600, covers_optional=(n not in MUST_REACH)) for n, iri in REPS]
 
 
 def run(rep):
@@ -42,8 +43,15 @@ def run(rep):
         for h, r in failed:
             rep.violation("kani:sophia_resource::" + h.name, kani_unit.describe_failure(r), witness=witness,
                           replay_text="./check C19 --replay <this file>   # replay_src/c19: real directory tree with a sentinel file outside the root", confirmed=confirmed)
-    rep.not_covered += ["symbolic suffixes (CBMC does not finish on std::path parsing)", "nested / overlapping namespace configurations",
-                        "the extension retry after NotFound", "Resource::get_neighbour (calls the same loader)", "symbolic links, Windows prefixes"]
+    # bounded native stand-in on a real directory tree (std::fs / std::path are what CBMC cannot execute: is_file(),
+    # metadata, with_extension make it time out): files named after the directory beside it, sibling directories
+    # sharing its prefix, a sentinel one level up
+    native.bounded_stand_in(rep, ID, "c19", [], "c19_real_directory_tree",
+                            "LocalLoader::get on a real temporary tree never returns the content of a file outside the mapped directory (sentinel content in <tmp>/secret.ttl, <tmp>/root.{ttl,nt,...}, <tmp>/root-private/, <tmp>/rootsub/) and still serves a file inside it",
+                            "43 IRIs: dot segments, absolute remainders, percent-encoded dots / slashes, fragments, the namespace itself, nested namespaces",
+                            "<LocalLoader as Loader>::get incl. the extension-guessing retry, LocalLoader::new (resource/src/loader/_local.rs) against the real file system",
+                            "./check C19 --replay <this file>   # replay_src/c19")
+    rep.not_covered += ["symbolic suffixes (CBMC does not finish on std::path parsing)", "nested / overlapping namespace configurations and the extension retry after NotFound beyond the IRIs of the native stand-in", "Resource::get_neighbour (calls the same loader)", "symbolic links, Windows prefixes"]
     rep.notes.append("bounded: representative IRIs only")
 
 
